@@ -249,7 +249,10 @@ def c04_case(rng):
     spec['load']['coef'] = [L, 0.0, 0.0, 0.0, 0.0]
     D = rng.choice([1.0, 1.0, rng.uniform(0.3, 1.0), -rng.uniform(0.3, 1.0), rng.uniform(-0.02, 0.02)])
     spec['motor']['pwm0'] = D
-    return {'t': 'c04', 'spec': spec, 'kT': rng.uniform(2.0, 5.0), 'h0': rng.uniform(0.1, 0.2)}
+    pre = []
+    if rng.random() < 0.4:
+        sim_props.inject_redeclare(rng, spec, pre)      # e.g. one leg of an efficiency sweep on existing objects
+    return {'t': 'c04', 'spec': spec, 'pre': pre, 'kT': rng.uniform(2.0, 5.0), 'h0': rng.uniform(0.1, 0.2)}
 
 
 def closed_form(spec, tr):
@@ -276,7 +279,10 @@ def closed_form(spec, tr):
 
 def eval_c04(ctx, case):
     spec = case['spec']
-    probe = dict(spec, ops=[{'op': 'run', 'dt': [0.5, 'sec'], 'T': [1.0, 'sec'], 'stop': None, 'ctrl': True}])
+    pre = case.get('pre', [])
+    if pre:
+        ctx.count('relation re-declared after the powertrain and the solver were built')
+    probe = dict(spec, ops=pre + [{'op': 'run', 'dt': [0.5, 'sec'], 'T': [1.0, 'sec'], 'stop': None, 'ctrl': True}])
     tr0, _ = sim.simulate(probe)
     if tr0['build_error'] or tr0['error'] or tr0['sl']:
         ctx.count('case not usable')
@@ -302,7 +308,7 @@ def eval_c04(ctx, case):
         n = steps0 * 2 ** k
         if n > 1200:
             break
-        s = dict(spec, ops=[{'op': 'run', 'dt': [dt, 'sec'], 'T': [dt * n, 'sec'], 'stop': None, 'ctrl': True}])
+        s = dict(spec, ops=pre + [{'op': 'run', 'dt': [dt, 'sec'], 'T': [dt * n, 'sec'], 'stop': None, 'ctrl': True}])
         tr, _ = sim.simulate(s)
         if tr['error'] is not None or len(tr['time']) != n + 1:
             ctx.violation(case, {'why': f"run with dt = {dt} failed or has the wrong length: {tr['error']}, {len(tr['time'])} instants for {n} steps"})
